@@ -619,13 +619,13 @@ func init() {
 	Register(&Prop{
 		ID:    "C10",
 		Title: "No query, option set or input can crash or hang the host process",
-		Rule: "every case runs in a child process. Classes: valid = the 40 wide constructs under all 2^3 option sets; mutated = 1-3 token mutations " +
+		Rule: "every case runs in a child process. Classes: valid = the 47 wide constructs (incl. multi-dimensional selector items and FUSE) under all 2^3 option sets; mutated = 1-3 token mutations " +
 			"(delete, duplicate, swap, insert one of 60 keywords/brackets/quotes/qualifiers, replace, truncate) of a valid query; bytes = strings over an " +
 			"alphabet of SQL fragments, quotes, brackets, NUL, invalid UTF-8; hostile = 134 curated constants (NATURAL/CROSS/USING joins, chained UNION, " +
 			"self- and mutually-referencing CTEs, unbalanced brackets/quotes, out-of-range FROM paths, wrong-typed function arguments, qualifiers on " +
 			"unknown/aggregate/immediate functions, DML, empty input, selector syntax in FROM) on documents of regular and irregular shape, also mutated; " +
 			"fault = a planted function that returns an error / panics with an error / panics with a string at invocation k under no qualifier, ASYNC, " +
-			"SPIN, SPINASYNC, ONCE, AWAIT and nested in another call; cyclic-format = DISTINCT / ORDER BY over select lists mixing a subquery with `*`; join-on = ON clauses of every shape (non-boolean, ill-typed, missing columns, function calls, subqueries, AND/OR trees) under every join keyword incl. PARALLEL. " +
+			"SPIN, SPINASYNC, ONCE, AWAIT and nested in another call; cyclic-format = DISTINCT / ORDER BY over select lists mixing a subquery with `*`; dual-subquery = table-less scalar subqueries whose select list mixes comparisons, nested subqueries, back references and `*` in any order under DISTINCT / ORDER BY / CONCAT / HASH / GROUP BY / UNION; stateful-builtins = SETVAR / GETVAR / CONSTANT / REPORT / RAISE_WHEN / ONCE / GLOBAL calls with and without the option providing their state, always re-executed; scale = 24-64 inner arrays, nesting depth 5-9, 100-600-term expressions / parentheses / IN lists, 10-40 CTEs or UNION branches, 200-600 rows (the child's resident set is watched: growth beyond 3 GiB counts like a timeout); join-on = ON clauses of every shape (non-boolean, ill-typed, missing columns, function calls, subqueries, AND/OR trees) under every join keyword incl. PARALLEL. " +
 			"GOMAXPROCS of the child in {default,1,2,4}; a quarter of the cases execute the same Query object two or three times. Oracle: the child answers ok or error and stays alive (a panic escaping New/Exec, a process " +
 			"death confirmed in a fresh child, or a 15 s timeout confirmed in three fresh children is a violation). Non-trivial: the query gets past " +
 			"the parser, or is a mutation, or belongs to the fault / cyclic-format class.",
